@@ -5,7 +5,7 @@
 Require Extraction.
 Require Import ExtrOcamlBasic.
 From FFSM2 Require Import Model.Bits Model.BitStream Model.BitArray Model.Arrays Model.TaskList Model.Plan
-  Model.Dispatch Model.Ancestors Model.Machine Model.Script Model.Multi Proofs.LifeMonitor.
+  Model.Dispatch Model.Ancestors Model.Machine Model.Script Model.Multi Proofs.LifeMonitor Proofs.Contract.
 Extraction Blacklist List String Nat.
 Extraction "model.ml"
   bitWidth contain
@@ -17,4 +17,5 @@ Extraction "model.ml"
   dispatch lower upper state_id
   deep_order
   table_oracle wrun observe
-  cb_step.   (* the C01 lifecycle automaton of Proofs/LifeMonitor.v: proved to accept every model trace (run_accepted), run on implementation traces *)
+  cb_step
+  first_violation table_okb.   (* Proofs/Contract.v: is the script inside the domain the theorems quantify over *)   (* the C01 lifecycle automaton of Proofs/LifeMonitor.v: proved to accept every model trace (run_accepted), run on implementation traces *)
